@@ -29,28 +29,28 @@ type Frame struct {
 }
 
 type State struct {
-	heap     map[int]Value
-	frames   []*Frame
-	pc       []*Term
-	globals  map[*ssa.Global]int
-	vars     []*Term
-	varSeq   int
-	panicking bool
-	panicVal Value
-	recovered bool
-	forced   []bool
-	taken    []bool
-	steps    int
-	outcome  string
-	trace    []string
-	nextObj  int
-	hvars    []int // indexes into vars of harness-visible variables (v* calls), in call order
-	events   []Event
-	hashBuf  map[int][]Value
-	lockv    map[string]int
-	pools    map[int][]Value
+	heap                                             map[int]Value
+	frames                                           []*Frame
+	pc                                               []*Term
+	globals                                          map[*ssa.Global]int
+	vars                                             []*Term
+	varSeq                                           int
+	panicking                                        bool
+	panicVal                                         Value
+	recovered                                        bool
+	forced                                           []bool
+	taken                                            []bool
+	steps                                            int
+	outcome                                          string
+	trace                                            []string
+	nextObj                                          int
+	hvars                                            []int // indexes into vars of harness-visible variables (v* calls), in call order
+	events                                           []Event
+	hashBuf                                          map[int][]Value
+	lockv                                            map[string]int
+	pools                                            map[int][]Value
 	ivSeq, ivLen, ivHLen, ivEvLen, ivPcLen, ivCrcLen int
-	ivNoYield bool
+	ivNoYield                                        bool
 	// thread mode
 	threadMode bool
 	stacks     [][]*Frame
@@ -61,30 +61,38 @@ type State struct {
 	noYield    bool
 	switched   bool // set when the current instruction gave up the CPU without completing
 	spawned    []Value
-	crcApps  [][]*Term
-	ivFacts   map[*Term]aval
-	boolFacts map[*Term]bool
-	factsN    int
+	crcApps    [][]*Term
+	pendA      []pendAssert
+	ivFacts    map[*Term]aval
+	boolFacts  map[*Term]bool
+	zone       *zone
+	zonePend   []zonePending
+	model      Model // a model of pc, or nil when none is known
+	modelN     int   // number of pc conjuncts the model is known to satisfy
+	factsN     int
 }
 
 func (st *State) clone() *State {
 	n := &State{
-		heap:     make(map[int]Value, len(st.heap)),
-		frames:   make([]*Frame, len(st.frames)),
-		pc:       append([]*Term(nil), st.pc...),
-		globals:  make(map[*ssa.Global]int, len(st.globals)),
-		vars:     append([]*Term(nil), st.vars...),
-		varSeq:   st.varSeq,
+		heap:      make(map[int]Value, len(st.heap)),
+		frames:    make([]*Frame, len(st.frames)),
+		pc:        append([]*Term(nil), st.pc...),
+		globals:   make(map[*ssa.Global]int, len(st.globals)),
+		vars:      append([]*Term(nil), st.vars...),
+		varSeq:    st.varSeq,
 		panicking: st.panicking, panicVal: st.panicVal, recovered: st.recovered,
-		steps:    st.steps,
-		trace:    append([]string(nil), st.trace...),
-		nextObj:  st.nextObj,
-		hvars:    append([]int(nil), st.hvars...),
-		events:   append([]Event(nil), st.events...),
-		hashBuf:  map[int][]Value{},
-		lockv:    map[string]int{},
-		pools:    map[int][]Value{},
-		crcApps:  append([][]*Term(nil), st.crcApps...),
+		steps:   st.steps,
+		trace:   append([]string(nil), st.trace...),
+		nextObj: st.nextObj,
+		hvars:   append([]int(nil), st.hvars...),
+		events:  append([]Event(nil), st.events...),
+		hashBuf: map[int][]Value{},
+		lockv:   map[string]int{},
+		pools:   map[int][]Value{},
+		crcApps: append([][]*Term(nil), st.crcApps...),
+		pendA:   append([]pendAssert(nil), st.pendA...),
+		model:   st.model,
+		modelN:  st.modelN,
 	}
 	if st.ivFacts != nil {
 		n.ivFacts = make(map[*Term]aval, len(st.ivFacts))
@@ -96,6 +104,8 @@ func (st *State) clone() *State {
 			n.boolFacts[k] = v
 		}
 		n.factsN = st.factsN
+		n.zone = st.zone.clone()
+		n.zonePend = append([]zonePending(nil), st.zonePend...)
 	}
 	for k, v := range st.hashBuf {
 		n.hashBuf[k] = v
@@ -195,29 +205,35 @@ type Violation struct {
 }
 
 type Engine struct {
-	prog      *ssa.Program
-	solver    *Solver
-	sh        *Shared
-	work      []*State
-	paths     int
-	nontriv   int
-	outcomes  map[string]int
-	viol      []Violation
-	reach     map[string]int
-	asserts   map[string]int
-	assertQ   int
-	maxSteps  int
-	forks     int
-	funcsSeen map[*ssa.Function]bool
-	verbose   bool
-	harness   string
-	tier      int
-	pin       map[int]uint64
-	samples   []string
-	maxSwitch int
-	noAbs     bool
-	audit     bool
-	absHits   int
+	prog            *ssa.Program
+	solver          *Solver
+	sh              *Shared
+	work            []*State
+	paths           int
+	nontriv         int
+	outcomes        map[string]int
+	viol            []Violation
+	reach           map[string]int
+	asserts         map[string]int
+	assertQ         int
+	maxSteps        int
+	forks           int
+	funcsSeen       map[*ssa.Function]bool
+	verbose         bool
+	harness         string
+	tier            int
+	pin             map[int]uint64
+	samples         []string
+	maxSwitch       int
+	noAbs           bool
+	audit           bool
+	absHits         int
+	noSlice         bool
+	useModel        bool
+	assertsToSolver bool
+	absAsserts      int
+	varMemo         map[*Term]varset
+	varIdx          map[*Term]int
 }
 
 func (e *Engine) top(st *State) *Frame { return st.frames[len(st.frames)-1] }
@@ -257,8 +273,9 @@ func (e *Engine) forkClone(st *State, lastDecision bool) *State {
 	cl.events = cl.events[:st.ivEvLen]
 	cl.pc = cl.pc[:st.ivPcLen]
 	cl.crcApps = cl.crcApps[:st.ivCrcLen]
-	cl.ivFacts, cl.boolFacts, cl.factsN = nil, nil, 0
+	cl.ivFacts, cl.boolFacts, cl.factsN, cl.zone, cl.zonePend = nil, nil, 0, nil, nil
 	cl.forced = append(append([]bool(nil), st.taken...), lastDecision)
+	cl.model, cl.modelN = nil, 0
 	return cl
 }
 
@@ -297,29 +314,64 @@ func (e *Engine) branch(st *State, c *Term) bool {
 			st.pc = append(st.pc, Not(c))
 		}
 		st.taken = append(st.taken, d)
+		if len(st.forced) == 0 && st.modelN == -1 {
+			st.modelN = len(st.pc) // the clone's model was taken for exactly this prefix
+		}
 		return d
 	}
-	rt := e.solver.Check(st.pc, c)
-	if rt == "unknown" {
-		panic(unsupported("solver unknown"))
+	// model-guided: the side the current model satisfies is feasible for free
+	knownT, knownF := false, false
+	if e.useModel && st.modelValid() {
+		if v, ok := st.holds(c); ok {
+			knownT, knownF = v, !v
+		}
+	}
+	var mT, mF Model
+	rt := "sat"
+	if !knownT {
+		rt = e.feasible(st, c)
+		if rt == "unknown" {
+			panic(unsupported("solver unknown"))
+		}
+		if rt == "sat" && e.useModel {
+			mT = e.fetchModel(st)
+		}
+	} else {
+		mT = st.model
 	}
 	if rt == "unsat" {
 		st.pc = append(st.pc, Not(c))
 		st.taken = append(st.taken, false)
+		st.modelN = len(st.pc) // pc implies not c: the model still fits
 		return false
 	}
-	rf := e.solver.Check(st.pc, Not(c))
-	if rf == "unknown" {
-		panic(unsupported("solver unknown"))
+	rf := "sat"
+	if !knownF {
+		rf = e.feasible(st, Not(c))
+		if rf == "unknown" {
+			panic(unsupported("solver unknown"))
+		}
+		if rf == "sat" && e.useModel {
+			mF = e.fetchModel(st)
+		}
+	} else {
+		mF = st.model
 	}
 	if rf == "sat" {
 		cl := e.forkClone(st, false)
+		cl.model, cl.modelN = mF, -1 // valid once the forced prefix has been replayed
 		e.pushFork(cl)
 		e.forks++
 	}
 	st.pc = append(st.pc, c)
 	st.taken = append(st.taken, true)
+	st.model, st.modelN = mT, len(st.pc)
 	return true
+}
+
+// modelValid: the model is known to satisfy the whole current pc.
+func (st *State) modelValid() bool {
+	return st.model != nil && st.modelN == len(st.pc)
 }
 
 // concretize returns a concrete value of term t in [0,hi) forking over feasible ones; ok=false if out of range (panic path)
@@ -364,8 +416,18 @@ func (e *Engine) chooseFresh(st *State, v *Term, n int) (int, bool) {
 			e.pushFork(cl)
 			e.forks++
 		}
+		valid := st.modelValid()
 		st.pc = append(st.pc, c)
 		st.taken = append(st.taken, true)
+		if valid {
+			// v is fresh: the model extends with v = k
+			nm := make(Model, len(st.model)+1)
+			for kk, vv := range st.model {
+				nm[kk] = vv
+			}
+			nm[v] = uint64(k)
+			st.model, st.modelN = nm, len(st.pc)
+		}
 		return k, true
 	}
 	return 0, false
@@ -622,6 +684,19 @@ func (e *Engine) exec(st *State, f *Frame, in ssa.Instruction) {
 			bt := b.(*Term)
 			if e.branch(st, Cmp("=", bt, Const(bt.W, 0))) {
 				panic(goPanic{"runtime error: integer divide by zero"})
+			}
+		}
+		if x.Op == token.REM {
+			// rand % c for a fresh random value: "any value below c" (an exact
+			// 64-bit remainder by a constant stalls bit-blasting solvers)
+			if at, ok := a.(*Term); ok && at.Op == "var" && strings.HasPrefix(at.Name, "rand!") {
+				if bt := b.(*Term); bt.IsConst() && bt.C > 0 {
+					y := e.newVar(st, "randmod", at.W)
+					st.pc = append(st.pc, Cmp("bvult", y, bt))
+					f.env[x] = y
+					f.ip++
+					return
+				}
 			}
 		}
 		f.env[x] = binop(x.Op, x.X.Type(), a, b)
@@ -1413,7 +1488,6 @@ func (e *Engine) execSelect(st *State, f *Frame, x *ssa.Select) {
 }
 
 // ---- thread mode ----
-
 
 func (e *Engine) enabledOthers(st *State) []int {
 	var r []int
